@@ -3,6 +3,8 @@ import Qentem.Proofs.BigIntDiv
 import Qentem.Proofs.BigIntHelpers
 import Qentem.Proofs.BigIntShl
 import Qentem.Proofs.BigIntScan
+import Qentem.Proofs.BigIntWide
+import Qentem.Proofs.BigIntWideOps
 /-! C19 — BigInt holds the exact mathematical integer after every operation that fits.
 
 `Inv W s` (Proofs/BigIntBasic) is the representation invariant: n ≥ 1 words below 2^W, the words above
@@ -34,22 +36,25 @@ def specRun (W n : Nat) : Nat → List Op → Option (Nat × List Ret)
 even word width. -/
 def GoodCfg (c : Cfg) : Prop := 0 < c.W ∧ (c.hand = true → c.W % 2 = 0)
 
-/-- **C19, full strength** (statement): every operation of every configuration is exact. -/
-def C19_full : Prop := ∀ c : Cfg, GoodCfg c → ∀ op : Op, StepExact c op
+/-- An operand / target type of `K` bits that exists next to `W`-bit words: not wider than a word, or a
+whole number (≥ 2) of words — `(sizeof(N_Number_T) * 8) / TypeWidth() > 1` in the C++. -/
+def TypeOK (W K : Nat) : Prop := K ≤ W ∨ (W ∣ K ∧ K / W > 1)
 
-/-- The operations covered by the proved step theorem: operands of `=`, `+=`, `-=`, `|=`, `&=` and the
-target of the narrowing conversion are at most one word wide. Open: operands wider than a word. -/
-def Covered (W : Nat) : Op → Prop
-  | .assign K _ => K ≤ W
-  | .bop _ K _ => K ≤ W
-  | .narrow K => K ≤ W
+/-- The operation's operand/target type is realisable for `W`-bit words. -/
+def Typed (W : Nat) : Op → Prop
+  | .assign K _ => TypeOK W K
+  | .bop _ K _ => TypeOK W K
+  | .narrow K => TypeOK W K
   | _ => True
+
+/-- **C19, full strength** (statement): every operation of every configuration is exact. -/
+def C19_full : Prop := ∀ c : Cfg, GoodCfg c → ∀ op : Op, Typed c.W op → StepExact c op
 
 theorem pow_comm' (W n : Nat) : 2 ^ (n * W) = 2 ^ (W * n) := by rw [Nat.mul_comm]
 
-/-- Every covered operation is exact, never leaves the storage and re-establishes the invariant —
-given that the configuration's double-word helpers are exact. -/
-theorem step_exact_partial (c : Cfg) (hm : MulOK c) (hd : DivOK c) (op : Op) (hc : Covered c.W op) :
+/-- Every operation is exact, never leaves the storage and re-establishes the invariant — given that
+the configuration's double-word helpers are exact. -/
+theorem step_exact (c : Cfg) (hm : MulOK c) (hd : DivOK c) (op : Op) (hc : Typed c.W op) :
     StepExact c op := by
   intro s a' r h hspec
   cases op with
@@ -59,8 +64,11 @@ theorem step_exact_partial (c : Cfg) (hm : MulOK c) (hd : DivOK c) (op : Op) (hc
     · rename_i hx
       simp only [Option.some.injEq, Prod.mk.injEq] at hspec
       obtain ⟨rfl, rfl⟩ := hspec
-      obtain ⟨s', hrun, hinv, hl, hv⟩ := assign_small_spec s x h hc hx.1
-      exact ⟨s', by simp [step, hrun, bind, Except.bind, pure, Except.pure], hinv, hl, hv⟩
+      rcases hc with hc | ⟨hc1, hc2⟩
+      · obtain ⟨s', hrun, hinv, hl, hv⟩ := assign_small_spec s x h hc hx.1
+        exact ⟨s', by simp [step, hrun, bind, Except.bind, pure, Except.pure], hinv, hl, hv⟩
+      · obtain ⟨s', hrun, hinv, hl, hv⟩ := assign_wide_spec s x h hc1 hc2 hx.1 (by rw [← pow_comm']; exact hx.2)
+        exact ⟨s', by simp [step, hrun, bind, Except.bind, pure, Except.pure], hinv, hl, hv⟩
     · exact absurd hspec (by simp)
   | bop o K x =>
     simp only [specStep] at hspec
@@ -73,8 +81,11 @@ theorem step_exact_partial (c : Cfg) (hm : MulOK c) (hd : DivOK c) (op : Op) (hc
         · rename_i hfit
           simp only [Option.some.injEq, Prod.mk.injEq] at hspec
           obtain ⟨rfl, rfl⟩ := hspec
-          obtain ⟨s', hrun, hinv, hl, hv⟩ := add_small_spec s x h hc hx (by rw [← pow_comm']; exact hfit)
-          exact ⟨s', by simp [step, hrun, bind, Except.bind, pure, Except.pure], hinv, hl, hv⟩
+          rcases hc with hc | ⟨hc1, hc2⟩
+          · obtain ⟨s', hrun, hinv, hl, hv⟩ := add_small_spec s x h hc hx (by rw [← pow_comm']; exact hfit)
+            exact ⟨s', by simp [step, hrun, bind, Except.bind, pure, Except.pure], hinv, hl, hv⟩
+          · obtain ⟨s', hrun, hinv, hl, hv⟩ := add_wide_spec s x h hc1 hc2 hx (by rw [← pow_comm']; exact hfit)
+            exact ⟨s', by simp [step, hrun, bind, Except.bind, pure, Except.pure], hinv, hl, hv⟩
         · exact absurd hspec (by simp)
       | sub =>
         simp only [] at hspec
@@ -82,24 +93,35 @@ theorem step_exact_partial (c : Cfg) (hm : MulOK c) (hd : DivOK c) (op : Op) (hc
         · rename_i hfit
           simp only [Option.some.injEq, Prod.mk.injEq] at hspec
           obtain ⟨rfl, rfl⟩ := hspec
-          obtain ⟨s', hrun, hinv, hl, hv⟩ := sub_small_spec s x h hc hx hfit
-          exact ⟨s', by simp [step, hrun, bind, Except.bind, pure, Except.pure], hinv, hl, hv⟩
+          rcases hc with hc | ⟨hc1, hc2⟩
+          · obtain ⟨s', hrun, hinv, hl, hv⟩ := sub_small_spec s x h hc hx hfit
+            exact ⟨s', by simp [step, hrun, bind, Except.bind, pure, Except.pure], hinv, hl, hv⟩
+          · obtain ⟨s', hrun, hinv, hl, hv⟩ := sub_wide_spec s x h hc1 hc2 hx hfit
+            exact ⟨s', by simp [step, hrun, bind, Except.bind, pure, Except.pure], hinv, hl, hv⟩
         · exact absurd hspec (by simp)
       | or =>
         simp only [] at hspec
         split at hspec
-        · simp only [Option.some.injEq, Prod.mk.injEq] at hspec
+        · rename_i hfit
+          simp only [Option.some.injEq, Prod.mk.injEq] at hspec
           obtain ⟨rfl, rfl⟩ := hspec
-          obtain ⟨s', hrun, hinv, hl, hv⟩ := or_small_spec s x h hc hx
-          exact ⟨s', by simp [step, hrun, bind, Except.bind, pure, Except.pure], hinv, hl, hv⟩
+          rcases hc with hc | ⟨hc1, hc2⟩
+          · obtain ⟨s', hrun, hinv, hl, hv⟩ := or_small_spec s x h hc hx
+            exact ⟨s', by simp [step, hrun, bind, Except.bind, pure, Except.pure], hinv, hl, hv⟩
+          · obtain ⟨s', hrun, hinv, hl, hv⟩ := or_wide_spec s x h hc1 hc2 hx (by rw [← pow_comm']; exact hfit)
+            exact ⟨s', by simp [step, hrun, bind, Except.bind, pure, Except.pure], hinv, hl, hv⟩
         · exact absurd hspec (by simp)
       | and =>
         simp only [] at hspec
         split at hspec
-        · simp only [Option.some.injEq, Prod.mk.injEq] at hspec
+        · rename_i hfit
+          simp only [Option.some.injEq, Prod.mk.injEq] at hspec
           obtain ⟨rfl, rfl⟩ := hspec
-          obtain ⟨s', hrun, hinv, hl, hv⟩ := and_small_spec s x h hc hx
-          exact ⟨s', by simp [step, hrun, bind, Except.bind, pure, Except.pure], hinv, hl, hv⟩
+          rcases hc with hc | ⟨hc1, hc2⟩
+          · obtain ⟨s', hrun, hinv, hl, hv⟩ := and_small_spec s x h hc hx
+            exact ⟨s', by simp [step, hrun, bind, Except.bind, pure, Except.pure], hinv, hl, hv⟩
+          · obtain ⟨s', hrun, hinv, hl, hv⟩ := and_wide_spec s x h hc1 hc2 hx (by rw [← pow_comm']; exact hfit)
+            exact ⟨s', by simp [step, hrun, bind, Except.bind, pure, Except.pure], hinv, hl, hv⟩
         · exact absurd hspec (by simp)
       | set => exact absurd hspec (by simp)
     · exact absurd hspec (by simp)
@@ -174,7 +196,9 @@ theorem step_exact_partial (c : Cfg) (hm : MulOK c) (hd : DivOK c) (op : Op) (hc
   | narrow K =>
     simp only [specStep, Option.some.injEq, Prod.mk.injEq] at hspec
     obtain ⟨rfl, rfl⟩ := hspec
-    exact ⟨s, by simp [step, narrow_small_spec s h hc, bind, Except.bind, pure, Except.pure], h, rfl, rfl⟩
+    rcases hc with hc | ⟨hc1, hc2⟩
+    · exact ⟨s, by simp [step, narrow_small_spec s h hc, bind, Except.bind, pure, Except.pure], h, rfl, rfl⟩
+    · exact ⟨s, by simp [step, narrow_wide_spec s h hc1 hc2, bind, Except.bind, pure, Except.pure], h, rfl, rfl⟩
   | flb =>
     simp only [specStep] at hspec
     split at hspec
@@ -216,14 +240,14 @@ theorem run_exact (c : Cfg) : ∀ (ops : List Op) (s : Big) (a' : Nat) (rs : Lis
         refine ⟨s2, ?_, hinv2, by omega, hv2⟩
         simp [run, hstep, hrun, bind, Except.bind, pure, Except.pure]
 
-/-- Sequences of covered operations on a fresh object with the native double-width helpers
+/-- Sequences of operations on a fresh object with the native double-width helpers
 (8/16/32-bit words in the C++; any word width ≥ 1 and any word count ≥ 1 here). -/
 theorem sequence_exact_native (W n : Nat) (hW : 0 < W) (hn : 0 < n) (ops : List Op) (a' : Nat) (rs : List Ret)
-    (hcov : ∀ op ∈ ops, Covered W op) (hspec : specRun W n 0 ops = some (a', rs)) :
+    (hcov : ∀ op ∈ ops, Typed W op) (hspec : specRun W n 0 ops = some (a', rs)) :
     ∃ s', run ⟨W, false⟩ (zero n) ops = .ok (s', rs) ∧ Inv W s' ∧ s'.words.length = n ∧ s'.val W = a' := by
   have hlen : (zero n).words.length = n := by simp [zero]
   have := run_exact ⟨W, false⟩ ops (zero n) a' rs
-    (fun op hop => step_exact_partial ⟨W, false⟩ (mulOK_native W) (divOK_native W) op (hcov op hop))
+    (fun op hop => step_exact ⟨W, false⟩ (mulOK_native W) (divOK_native W) op (hcov op hop))
     (inv_zero hW hn) (by rw [hlen, val_zero]; exact hspec)
   simpa [hlen] using this
 
@@ -231,12 +255,12 @@ theorem sequence_exact_native (W n : Nat) (hW : 0 < W) (hn : 0 < n) (ops : List 
 the exactness of the half-word divide. -/
 theorem sequence_exact_hand (h n : Nat) (hh : 0 < h) (hn : 0 < n) (hdiv : DivOK ⟨2 * h, true⟩)
     (ops : List Op) (a' : Nat) (rs : List Ret)
-    (hcov : ∀ op ∈ ops, Covered (2 * h) op) (hspec : specRun (2 * h) n 0 ops = some (a', rs)) :
+    (hcov : ∀ op ∈ ops, Typed (2 * h) op) (hspec : specRun (2 * h) n 0 ops = some (a', rs)) :
     ∃ s', run ⟨2 * h, true⟩ (zero n) ops = .ok (s', rs) ∧ Inv (2 * h) s' ∧ s'.words.length = n ∧
       s'.val (2 * h) = a' := by
   have hlen : (zero n).words.length = n := by simp [zero]
   have := run_exact ⟨2 * h, true⟩ ops (zero n) a' rs
-    (fun op hop => step_exact_partial ⟨2 * h, true⟩ (mulOK_hand h) hdiv op (hcov op hop))
+    (fun op hop => step_exact ⟨2 * h, true⟩ (mulOK_hand h) hdiv op (hcov op hop))
     (inv_zero (by show 0 < 2 * h; omega) hn) (by rw [hlen, val_zero]; exact hspec)
   simpa [hlen] using this
 
@@ -246,6 +270,22 @@ theorem mul_helper_exact (h a b : Nat) (ha : a < 2 ^ (2 * h)) (hb : b < 2 ^ (2 *
 
 /-- **Open**: the half-word divide is exact for every half width under its precondition. -/
 def div_helper_exact : Prop := ∀ h : Nat, 0 < h → DivOK ⟨2 * h, true⟩
+
+/-- C19 for every configuration with the native double-width helpers (8/16/32-bit words): proved in full. -/
+theorem C19_native (W : Nat) (op : Op) (ht : Typed W op) : StepExact ⟨W, false⟩ op :=
+  step_exact ⟨W, false⟩ (mulOK_native W) (divOK_native W) op ht
+
+/-- The full statement follows from the exactness of the half-word divide (the only open obligation). -/
+theorem C19_full_of_div_helper (hdiv : div_helper_exact) : C19_full := by
+  intro c hg op ht
+  rcases c with ⟨W, hand⟩
+  cases hand with
+  | false => exact C19_native W op ht
+  | true =>
+    have hev : W % 2 = 0 := hg.2 rfl
+    have hW : 0 < W := hg.1
+    obtain ⟨h, rfl⟩ : ∃ h, W = 2 * h := ⟨W / 2, by omega⟩
+    exact step_exact ⟨2 * h, true⟩ (mulOK_hand h) (hdiv h (by omega)) op ht
 
 /-! Non-vacuity: a concrete run where everything fits (8-bit words, 4 words):
 200 + 255 = 455; ·200 = 91000; /9 = 10111 rem 1; 10111 > 9; log2 10111 = 13. -/
